@@ -40,6 +40,7 @@ def showBits (l : List Bool) : String := String.ofList (l.map (fun b => if b the
 * `expr.lex cps=… words=…` → `toks=<kind@pos>,… stop=eof@<pos>|bad@<pos>` (kinds `(` `)` `or` `and` `not` `id.<cps>`)
 * `expr.select mode=k|m|after cps=… words=… tasks=<name>/<attr;…>/<marker;…>|… lower=<orig>:<lowered>,…`
   → `sel:<indices>` | `none` | `parse-error:<col>`
+* `expr.project k=<-k expr> m=<-m expr> words=… tasks=… lower=…` → `sel:<indices of the tasks not deselected>` | `parse-error:<col>`
 -/
 def exprHandle (st : ExprSt) (cmd : String) (a : Args) : ExprSt × String :=
   let isWord? : Option (Char → Bool) := do
@@ -75,6 +76,15 @@ def exprHandle (st : ExprSt) (cmd : String) (a : Args) : ExprSt × String :=
       let stop := match l.stop with | .eof p => s!"eof@{p}" | .bad p => s!"bad@{p}"
       (st, s!"toks={ts} stop={stop}")
     | _, _ => (st, "bad-op")
+  | "expr.project" =>
+    match exprCps? "," (a.get "k"), exprCps? "," (a.get "m"), isWord?, tasks? (a.get "tasks"), lowerTable? (a.get "lower") with
+    | some k, some m, some isWord, some tasks, some tbl =>
+      let lower (s : List Char) : List Char :=
+        match tbl.find? (fun (p : List Char × List Char) => p.1 == s) with | some (_, v) => v | none => s
+      match selectProject isWord lower k m tasks with
+      | .ok l => (st, "sel:" ++ showNats l)
+      | .error e => (st, showCErr e)
+    | _, _, _, _, _ => (st, "bad-op")
   | "expr.select" =>
     match exprCps? "," (a.get "cps"), isWord?, tasks? (a.get "tasks"), lowerTable? (a.get "lower") with
     | some cs, some isWord, some tasks, some tbl =>
